@@ -1,25 +1,26 @@
 /-
-Model of `bin/rdsquashfs/src/describe.c` **with `fixes/C16-describe-newline.patch` applied** (property C16).
+Model of `bin/rdsquashfs/src/describe.c` **as it is in /repo** since fix 4b35342 "refuse to print a link target or input
+location that contains a line feed" (property C16).
 
 The pack-file format cannot express a line feed inside a field: `istream_get_line` cuts the listing at every LF
-before `split_line` sees it, and `split_line` knows the escapes `\"` and `\\` only.  The printer in /repo
-(`Sqfs.Quote.describeNode`) nevertheless prints a symlink target or an `--unpack-root` location that contains LF,
-and the listing does not rebuild the tree (`Sqfs/Witness/C16.lean`, section "LF").  The patch makes
-`print_escaped()` return an error for such a string (diagnostic on stderr, `rdsquashfs` exits non-zero); entry
-names go through the same function, so a name with LF is refused too instead of being printed on two lines.
+before `split_line` sees it, and `split_line` knows the escapes `\"` and `\\` only.  `print_escaped()` therefore
+returns an error for such a string (diagnostic on stderr, `rdsquashfs` exits non-zero); entry names go through the
+same function, so a name with LF is refused too instead of being printed on two lines.  Before the fix the string was
+printed and the listing did not rebuild the tree (`Sqfs.Quote.describeNode` is that printer; witnesses in
+`Sqfs/Witness/C16.lean`, section LF).
 
-Everything else is `Sqfs.Quote`: same `getPath`, `nodePath`, `printPerm`, `printNat`, same quoting rule.
+Everything else is shared with `Sqfs.Quote`: same `getPath`, `nodePath`, `printPerm`, `printNat`, same quoting rule.
 -/
 import Sqfs.Model.Quote
 namespace Sqfs.QuoteLF
 open Sqfs.Path (Bytes)
 open Sqfs.Quote
 
-/-- patched `print_escaped`: `if (strchr(str, '\n') != NULL) { fprintf(stderr, …); return -1; }`, then as before -/
+/-- `print_escaped`: `if (strchr(str, '\n') != NULL) { fprintf(stderr, …); return -1; }`, then as before -/
 def printEscaped (s : Bytes) : Except DErr Bytes :=
   if s.contains LF then .error .newline else .ok (Sqfs.Quote.printEscaped s)
 
-/-- patched `print_name(n, NULL)` on the canonical path: the root is still printed as `/` without asking
+/-- `print_name(n, NULL)` on the canonical path: the root is still printed as `/` without asking
 `print_escaped`; `ret = print_escaped(name)` otherwise -/
 def printName (path : Bytes) : Except DErr Bytes :=
   if path = [] then .ok [SL] else printEscaped path
@@ -53,7 +54,7 @@ def escapedLine (comps : List Bytes) (n : Node) (kwd : Bytes) (last : Bytes → 
       | .ok x => .ok (kwd ++ [SP] ++ nm ++ printPerm n ++ SP :: x ++ [LF])
 
 /--
-One call of the patched `describe_tree` without the recursion into children.  The order of the fallible steps is
+One call of `describe_tree` without the recursion into children.  The order of the fallible steps is
 the order of the C code: `is_filename_sane`, `print_name(n, NULL)` (path, canonicalisation, LF in the path), then —
 for a symlink — `print_escaped(target)`, for a file with `--unpack-root` — `print_name(n, unpack_root)` (LF in
 `<root>/<path>`).
@@ -76,7 +77,7 @@ def describeNode (unpackRoot : Option Bytes) (comps : List Bytes) (n : Node) : E
     | .other => .ok []
 
 mutual
-/-- the recursion of `describe_tree` (unchanged by the patch) -/
+/-- the recursion of `describe_tree` -/
 def describeTree (unpackRoot : Option Bytes) (comps : List Bytes) : Tree → Except DErr Bytes
   | .mk _ node children =>
     match describeNode unpackRoot comps node with
